@@ -106,6 +106,7 @@ pub fn catalogue(w: &World, tier: &str, seed: u64, reps: usize) -> Vec<FaultCase
                             }
                         }
                         for r in pick(&idx, thorough) {
+                            entries.push((What::TreeMulti(vec![tm(vec![r, 0], MutOp::FlipBit), tm(vec![r, 1], MutOp::SetU128(0))]), "abit-check-bit-with-zero-mac".into()));
                             entries.push((What::Tree(tm(vec![r, 0], MutOp::FlipBit)), "abit-check-bit".into()));
                             entries.push((What::Tree(tm(vec![r, 1], MutOp::FlipBit)), "abit-check-mac".into()));
                         }
@@ -213,6 +214,11 @@ pub fn catalogue(w: &World, tier: &str, seed: u64, reps: usize) -> Vec<FaultCase
                             entries.push((What::Tree(tm(vec![], MutOp::SwapElems(0, len - 1))), "beaver-swap-two-openings".into()));
                         }
                         entries.push((What::TreeMulti(vec![tm(vec![0, 0], MutOp::FlipBit), tm(vec![0, 1], MutOp::FlipBit)]), "beaver-d-and-e-bit".into()));
+                        // all-zero MACs (would pass a check that treats Mac(0) as "no MAC, nothing to verify")
+                        for j in pick(&idx, thorough) {
+                            entries.push((What::TreeMulti(vec![tm(vec![j, 0], MutOp::FlipBit), tm(vec![j, 2], MutOp::SetU128(0)), tm(vec![j, 3], MutOp::SetU128(0))]), "beaver-d-bit-with-zero-macs".into()));
+                            entries.push((What::TreeMulti(vec![tm(vec![j, 1], MutOp::FlipBit), tm(vec![j, 2], MutOp::SetU128(0)), tm(vec![j, 3], MutOp::SetU128(0))]), "beaver-e-bit-with-zero-macs".into()));
+                        }
                         for j in pick(&idx, thorough) {
                             for f in 0..4usize {
                                 entries.push((What::Tree(tm(vec![j, f], MutOp::FlipBit)), format!("beaver-{}", ["d-bit", "e-bit", "d-mac", "e-mac"][f])));
